@@ -40,7 +40,7 @@ for out in sorted(glob.glob(BASE + '/C*/_out')):
         m2 = re.search(r'Place(?: this file)? in:?\s*([^\s(,]+)', first)
         d = '.'
         if m2:
-            d = re.sub(r'^/tmp/wt2?/C\d+/?', '', m2.group(1).strip().rstrip('/')) or '.'
+            d = re.sub(r'^/tmp/wt\d?/C\d+/?', '', m2.group(1).strip().rstrip('/')) or '.'
             if d.startswith('/'):
                 d = '.'
         race = ' -race' if '-race' in first else ''
